@@ -145,7 +145,6 @@ func RunC18(tier string) int {
 		run.Count("placement:"+pointClass(point, external), 1)
 		// unfinished work at the signal?
 		completed := map[string]bool{}
-		attemptsAfter := map[string]bool{}
 		resultAfter := map[string]bool{}
 		for _, ev := range evs {
 			if ev.Pid != pid || len(ev.KV) == 0 {
@@ -154,8 +153,6 @@ func RunC18(tier string) int {
 			switch {
 			case ev.Name == "walk.complete" && ev.Seq < cancelSeq:
 				completed[ev.KV[0]] = true
-			case ev.Name == "cmd.attempt" && ev.Seq > cancelSeq:
-				attemptsAfter[ev.KV[0]] = true
 			case ev.Name == "result.write" && ev.Seq > cancelSeq:
 				resultAfter[ev.KV[0]] = true
 			}
@@ -173,11 +170,9 @@ func RunC18(tier string) int {
 				return
 			}
 		}
-		for l := range attemptsAfter {
-			if obs.Started[l] > 0 {
-				viol("command-started-after-signal", fmt.Sprintf("%s was started after the signal had cancelled the build (placement %s)", l, placement))
-				return
-			}
+		if _, after := e1.StartedAfter(evs, "signal.cancelled", obs.Started); len(after) > 0 {
+			viol("command-started-after-signal", fmt.Sprintf("%v started after the signal had cancelled the build (placement %s)", after, placement))
+			return
 		}
 		// interrupted commands: started, not ended when grog exited
 		for l, c := range obs.Started {
